@@ -240,7 +240,8 @@ def worker(prop_id, workdir, runs, seed, tier='thorough', max_len=1024,
 # ---------------------------------------------------------------------------
 # campaign
 
-def campaign(prop_id, nproc, runs_per_proc, seed, wall_s, tier='thorough'):
+def campaign(prop_id, nproc, runs_per_proc, seed, wall_s, tier='thorough',
+             pool_size=192):
     """Run ``nproc`` libFuzzer processes with distinct seeds and fresh corpus
     directories; return (stats dicts, violations [(vdict, case)], info)."""
     if not ensure_atheris():
@@ -260,7 +261,7 @@ def campaign(prop_id, nproc, runs_per_proc, seed, wall_s, tier='thorough'):
             p = subprocess.Popen(
                 [sys.executable, '-m', 'pkv.fuzz', 'worker', prop_id, wd,
                  str(runs_per_proc), str(s), tier,
-                 'seeded' if i % 2 == 0 else 'empty'],
+                 'seeded' if i % 2 == 0 else 'empty', str(pool_size)],
                 cwd=wd, env=env, stdout=log, stderr=subprocess.STDOUT)
             procs.append((p, wd, log, s))
         deadline = time.time() + wall_s
@@ -302,8 +303,9 @@ if __name__ == '__main__':
         _, _, pid, wd, runs, seed = sys.argv[:6]
         tier = sys.argv[6] if len(sys.argv) > 6 else 'thorough'
         seeded = (sys.argv[7] if len(sys.argv) > 7 else 'seeded') == 'seeded'
+        psize = int(sys.argv[8]) if len(sys.argv) > 8 else 192
         del sys.argv[1:]
         sys.exit(worker(pid, wd, int(runs), int(seed), tier,
-                        seed_corpus=seeded))
+                        seed_corpus=seeded, pool_size=psize))
     print(__doc__)
     sys.exit(2)
